@@ -43,17 +43,21 @@ Fixpoint nplay (n : node) (I : list Z) (t : Q) {struct n} : steps_t * Q :=
          end) (iota (Z.to_nat len) 0) t
   end.
 
-Fixpoint nplay_list (l : list node) (I : list Z) (t : Q) : steps_t * Q :=
-  match l with
-  | [] => ([], t)
-  | x :: l' => let '(a, t1) := nplay x I t in let '(b, t2) := nplay_list l' I t1 in (a ++ b, t2)
-  end.
+Definition nplay_list (l : list node) (I : list Z) (t : Q) : steps_t * Q :=
+  (fix go (l : list node) (t : Q) : steps_t * Q :=
+     match l with
+     | [] => ([], t)
+     | x :: l' => let '(a, t1) := nplay x I t in let '(b, t2) := go l' t1 in (a ++ b, t2)
+     end) l t.
 
-Fixpoint play_iter (f : Z -> Q -> steps_t * Q) (is_ : list Z) (t : Q) : steps_t * Q :=
-  match is_ with
-  | [] => ([], t)
-  | i :: is' => let '(a, t1) := f i t in let '(b, t2) := play_iter f is' t1 in (a ++ b, t2)
-  end.
+Section play_iter.
+  Variable f : Z -> Q -> steps_t * Q.
+  Fixpoint play_iter (is_ : list Z) (t : Q) : steps_t * Q :=
+    match is_ with
+    | [] => ([], t)
+    | i :: is' => let '(a, t1) := f i t in let '(b, t2) := play_iter is' t1 in (a ++ b, t2)
+    end.
+End play_iter.
 
 (* ---------------------------------------------------------------------------------------------------------------- *)
 (* write summaries: the last value a node list writes into each translator map *)
